@@ -40,7 +40,7 @@ def describe(line, clause, flag, model_agrees):
                 % (clause, line["sch"], line["dirty"], "object re-used after it held and serialized another value" if line["dirty"] else "fresh object",
                    wc.jtxt(line["val"])[:160], line["size"], len(line["bytes"]), hexin, ",".join(line["_builds"])))
     if k == "end":
-        return ("%s violated by the real code [%s]: schema=%s kind=%s classes=%s model-predicts=%d input=%s (child %s while parsing; builds=%s)"
+        return ("%s violated by the real code [%s]: schema=%s kind=%s classes=%s model-predicts=%d input=%s (child %s while working on this case; builds=%s)"
                 % (clause, "parse did not return" if line["status"] == "hang" else "process died", line["sch"], line["kind"], classes_of(line), flag, hexin,
                    line["status"], ",".join(line["_builds"])))
     if k in ("pbser", "pbparse"):
@@ -185,7 +185,7 @@ def run(pid, tier, seed, replay=None):
             extra = ""
             if k == "end" and "san" in line["_builds"]:
                 extra = wc.stderr_tail(logs["san"][2])
-            rp_ = vlib.save_replay(pid, "%s_%s_%s_%s.json" % (clause, k, sch, cls), {"cases": [byid[line["id"]]], "clause": clause, "line": {x: y for x, y in line.items()}, "stderr": extra})
+            rp_ = vlib.save_replay(pid, "%s_%s_%s_%s_%s.json" % (clause, k, kind, sch, cls), {"cases": [byid[line["id"]]], "clause": clause, "line": {x: y for x, y in line.items()}, "stderr": extra})
             V.violation(what, rp_)
     # ---- model level: TLC found the clause violated on the machine / encoder the code conforms to (V2)
     mg = collections.OrderedDict()
